@@ -254,11 +254,17 @@ func runC03(c *runCtx) {
 		var out map[string]any
 		var b *bug.Bug
 		var err error
+		ceBefore, ccBefore := clockTime(repo, "bugs-edit"), clockTime(repo, "bugs-create")
 		if p := recoverTo(func() { b, err = bug.Read(repo, bugId) }); p != "" {
 			out = map[string]any{"panic": p}
 			c.violation(c.nCases, "C03/panic", "reading a crafted history panicked: "+p, kind)
 		} else if err != nil {
 			out = map[string]any{"err": readErrClass(err)}
+			// a history that is refused is not taken in: the reader's clocks do not move by it (they would put
+			// the next honest commit implausibly far ahead of its parent)
+			if ce, cc := clockTime(repo, "bugs-edit"), clockTime(repo, "bugs-create"); ce != ceBefore || cc != ccBefore {
+				c.violation(c.nCases, "C03/refused-but-witnessed", fmt.Sprintf("a refused history (perturbation %q: %v) moved the reader's clocks from edit=%d create=%d to edit=%d create=%d", kind, err, ceBefore, ccBefore, ce, cc), kind)
+			}
 		} else {
 			var ids []string
 			for _, o := range b.Operations() {
